@@ -573,7 +573,17 @@ func (n *node) RouteLinkPID(pid gen.PID, target gen.PID) error {
 			return gen.ErrProcessUnknown
 		}
 		lib.VerifPoint("route.add", pid)
-		return n.targetManager.AddLink(pid, target)
+		if err := n.targetManager.AddLink(pid, target); err != nil {
+			return err
+		}
+		// the target may have gone away between the check and the insert: its drain
+		// either took the new relation (the notification has been sent) or missed it
+		if _, exist := n.processes.Load(target); exist == false {
+			if n.targetManager.RemoveLink(pid, target) == nil {
+				return gen.ErrProcessUnknown
+			}
+		}
+		return nil
 	}
 
 	// remote target
@@ -634,7 +644,16 @@ func (n *node) RouteLinkProcessID(pid gen.PID, target gen.ProcessID) error {
 			return gen.ErrProcessUnknown
 		}
 		lib.VerifPoint("route.add", pid)
-		return n.targetManager.AddLink(pid, target)
+		if err := n.targetManager.AddLink(pid, target); err != nil {
+			return err
+		}
+		// see RouteLinkPID
+		if _, exist := n.names.Load(target.Name); exist == false {
+			if n.targetManager.RemoveLink(pid, target) == nil {
+				return gen.ErrProcessUnknown
+			}
+		}
+		return nil
 	}
 
 	// remote target
@@ -692,7 +711,16 @@ func (n *node) RouteLinkAlias(pid gen.PID, target gen.Alias) error {
 			return gen.ErrAliasUnknown
 		}
 		lib.VerifPoint("route.add", pid)
-		return n.targetManager.AddLink(pid, target)
+		if err := n.targetManager.AddLink(pid, target); err != nil {
+			return err
+		}
+		// see RouteLinkPID
+		if _, exist := n.aliases.Load(target); exist == false {
+			if n.targetManager.RemoveLink(pid, target) == nil {
+				return gen.ErrAliasUnknown
+			}
+		}
+		return nil
 	}
 
 	// remote target
@@ -760,6 +788,12 @@ func (n *node) RouteLinkEvent(pid gen.PID, target gen.Event) ([]gen.MessageEvent
 		lib.VerifPoint("route.add", pid)
 		if err := n.targetManager.AddLink(pid, target); err != nil {
 			return nil, err
+		}
+		// see RouteLinkPID
+		if _, exist := n.events.Load(target); exist == false {
+			if n.targetManager.RemoveLink(pid, target) == nil {
+				return nil, gen.ErrEventUnknown
+			}
 		}
 
 		if event.last != nil {
@@ -876,7 +910,16 @@ func (n *node) RouteMonitorPID(pid gen.PID, target gen.PID) error {
 			}
 		}
 		lib.VerifPoint("route.add", pid)
-		return n.targetManager.AddMonitor(pid, target)
+		if err := n.targetManager.AddMonitor(pid, target); err != nil {
+			return err
+		}
+		// see RouteLinkPID
+		if _, exist := n.processes.Load(target); exist == false {
+			if n.targetManager.RemoveMonitor(pid, target) == nil {
+				return gen.ErrProcessUnknown
+			}
+		}
+		return nil
 	}
 
 	// remote target
@@ -940,7 +983,16 @@ func (n *node) RouteMonitorProcessID(pid gen.PID, target gen.ProcessID) error {
 			}
 		}
 		lib.VerifPoint("route.add", pid)
-		return n.targetManager.AddMonitor(pid, target)
+		if err := n.targetManager.AddMonitor(pid, target); err != nil {
+			return err
+		}
+		// see RouteLinkPID
+		if _, exist := n.names.Load(target.Name); exist == false {
+			if n.targetManager.RemoveMonitor(pid, target) == nil {
+				return gen.ErrProcessUnknown
+			}
+		}
+		return nil
 	}
 
 	// remote target
@@ -1000,7 +1052,16 @@ func (n *node) RouteMonitorAlias(pid gen.PID, target gen.Alias) error {
 			return gen.ErrAliasUnknown
 		}
 		lib.VerifPoint("route.add", pid)
-		return n.targetManager.AddMonitor(pid, target)
+		if err := n.targetManager.AddMonitor(pid, target); err != nil {
+			return err
+		}
+		// see RouteLinkPID
+		if _, exist := n.aliases.Load(target); exist == false {
+			if n.targetManager.RemoveMonitor(pid, target) == nil {
+				return gen.ErrAliasUnknown
+			}
+		}
+		return nil
 	}
 
 	// remote target
@@ -1067,6 +1128,12 @@ func (n *node) RouteMonitorEvent(pid gen.PID, target gen.Event) ([]gen.MessageEv
 		lib.VerifPoint("route.add", pid)
 		if err := n.targetManager.AddMonitor(pid, target); err != nil {
 			return nil, err
+		}
+		// see RouteLinkPID
+		if _, exist := n.events.Load(target); exist == false {
+			if n.targetManager.RemoveMonitor(pid, target) == nil {
+				return nil, gen.ErrEventUnknown
+			}
 		}
 
 		if event.last != nil {
